@@ -25,7 +25,7 @@ ASSUMPTIONS = [
     "no random sentences beyond the bound are drawn (that would be sampling)",
 ]
 BOUNDS = {"quick": {"dt_steps": 3, "pairs": "same-block"}, "thorough": {"dt_steps": 4, "pairs": "same-block+triples"}}
-LITERALS = ('""', '"a"', '"\\""', '"\\\\"', '"\\x41"', '"A"', '"a\nb"', '"# ; { }"', '"a b"', '"a  b"', '"a\tb"', '" a"', '"{\n\n}"', '"\n\n"', '";\n\n{\n"', '"}\n\n\n{ ;"', '"don\\\'t"', '"\\\\\'"', '"\'"', '"\u00fc"', '"\u00e9\u00ff\u00a0x"', '"\u03a9"', '"a\rb"', '"a\r\nb"', '"a\x0cb\x0bc"', '"a\x1cb\x1dc\x1ed"', '"a\x85b"', '"a\u2028b\u2029c"')
+LITERALS = ('""', '"a"', '"\\""', '"\\\\"', '"\\x41"', '"A"', '"a\nb"', '"# ; { }"', '"a b"', '"a  b"', '"a\tb"', '" a"', '"{\n\n}"', '"\n\n"', '";\n\n{\n"', '"}\n\n\n{ ;"', '"don\\\'t"', '"\\\\\'"', '"\'"', '"\u00fc"', '"\u00e9\u00ff\u00a0x"', '"\u03a9"', '"a\rb"', '"a\r\nb"', '"a\x0cb\x0bc"', '"a\x1cb\x1dc\x1ed"', '"a\x85b"', '"a\u2028b\u2029c"', '"a\n#main { }\nb"', '"\n  #!/bin/sh\n# x\n"')
 DT_POSITIONS = [
     ("http_stager", "client", "http_options", "output"), ("http_stager", "server", "http_options", "output"),
     ("http_get", "client", "http_client", "metadata"), ("http_get", "client", "http_client", "id"), ("http_get", "client", "http_client", "output"), ("http_get", "server", "http_options", "output"),
